@@ -189,6 +189,10 @@ func cliTable() []cliEntry {
 		cliEntry{Name: "stats-nexus", Args: strings.Fields("stats -i @/t.nx --format nexus"), Files: cliFiles},
 		cliEntry{Name: "compare-trees-threads", Args: strings.Fields("compare trees -i @/t.nw -c @/multi.nw -t 2"), Files: cliFiles},
 	)
+	t = append(t,
+		cliE("compute-support-fbp-outfile", "compute support fbp -i @/t.nw -b @/boot.nw -o @/sup.nw --silent", "@/sup.nw"),
+		cliE("compute-support-tbe-outfile", "compute support tbe -i @/t.nw -b @/boot.nw -o @/sup.nw --silent", "@/sup.nw"),
+	)
 	// inside a pipe: every option left out, the tree comes on standard input
 	for _, line := range []string{"resolve", "unroot", "stats edges", "stats nodes", "stats tips", "stats rooted", "stats splits", "reformat nexus", "reformat newick", "reformat phyloxml",
 		"brlen clear", "support clear", "comment clear", "rotate sort", "labels", "collapse single", "collapse length", "collapse support", "collapse depth", "draw text", "matrix", "ltt", "compute edgetrees", "compute bipartitiontree A B"} {
